@@ -280,4 +280,160 @@ theorem mapRunOK_sound (disk : Disk) :
       simp only [mapRunOK, Bool.and_eq_true, Bool.not_eq_eq_eq_not, Bool.not_true] at h
       exact ⟨mapStep_irrelevant (effective disk ls.overlay) ls.st t h.1.1 h.1.2, ih _ h.2⟩
 
+/-! ### `map`: when would a tag map that is kept from type to type show? -/
+
+/-- the key under which `canNameMatch` looks a source member up in the tag map -/
+def tagKey (f : MField) : String := Transfer.pascalS f.matching
+
+def paramField (p : CParam) : MField := { name := p.name, backing := p.backing }
+
+theorem canNameMatch_congr (tg tg' : List (String × String)) (f1 f2 : MField)
+    (h : tg.lookup (tagKey f1) = tg'.lookup (tagKey f1)) : canNameMatch tg f1 f2 = canNameMatch tg' f1 f2 := by
+  simp only [canNameMatch, tagKey] at *
+  rw [h]
+
+theorem ctorInner_congr_false (tg tg' : List (String × String)) (f : MField)
+    (h : tg.lookup (tagKey f) = tg'.lookup (tagKey f)) :
+    ∀ (ps : List CParam) (w : List String), ctorInner tg false f ps w = ctorInner tg' false f ps w := by
+  intro ps
+  induction ps with
+  | nil => intro w; rfl
+  | cons p ps ih =>
+    intro w
+    simp only [ctorInner, ctorNameMatch, Bool.false_eq_true, ↓reduceIte, canNameMatch_congr tg tg' f _ h, ih]
+
+theorem ctorMatch_congr_false (tg tg' : List (String × String)) :
+    ∀ (fs : List MField), (∀ f ∈ fs, tg.lookup (tagKey f) = tg'.lookup (tagKey f)) →
+      ∀ (ps : List CParam) (w : List String), ctorMatch tg false fs ps w = ctorMatch tg' false fs ps w := by
+  intro fs
+  induction fs with
+  | nil => intro _ ps w; rfl
+  | cons f fs ih =>
+    intro h ps w
+    simp only [ctorMatch, ctorInner_congr_false tg tg' f (h f (List.mem_cons_self ..))]
+    exact ih (fun g hg => h g (List.mem_cons_of_mem _ hg)) _ _
+
+/-- `makeCtorMatch` only fills in targets: names and backing fields of the parameters stay -/
+theorem ctorInner_fields (tg : List (String × String)) (b : Bool) (f : MField) :
+    ∀ (ps : List CParam) (w : List String), (ctorInner tg b f ps w).1.map paramField = ps.map paramField := by
+  intro ps
+  induction ps with
+  | nil => intro w; rfl
+  | cons p ps ih =>
+    intro w
+    simp only [ctorInner]
+    split
+    · simp only [List.map_cons, ih, paramField]
+    · simp only [List.map_cons, ih]
+
+theorem ctorInner_congr_true (tg tg' : List (String × String)) (f : MField) :
+    ∀ (ps : List CParam), (∀ p ∈ ps, tg.lookup (tagKey (paramField p)) = tg'.lookup (tagKey (paramField p))) →
+      ∀ (w : List String), ctorInner tg true f ps w = ctorInner tg' true f ps w := by
+  intro ps
+  induction ps with
+  | nil => intro _ w; rfl
+  | cons p ps ih =>
+    intro h w
+    have hp := h p (List.mem_cons_self ..)
+    have ih' := ih (fun q hq => h q (List.mem_cons_of_mem _ hq))
+    have hc : canNameMatch tg { name := p.name, backing := p.backing } f = canNameMatch tg' { name := p.name, backing := p.backing } f :=
+      canNameMatch_congr tg tg' (paramField p) f hp
+    simp only [ctorInner, ctorNameMatch, ↓reduceIte, hc, ih']
+
+theorem ctorMatch_congr_true (tg tg' : List (String × String)) :
+    ∀ (fs : List MField) (ps : List CParam),
+      (∀ p ∈ ps, tg.lookup (tagKey (paramField p)) = tg'.lookup (tagKey (paramField p))) →
+      ∀ (w : List String), ctorMatch tg true fs ps w = ctorMatch tg' true fs ps w := by
+  intro fs
+  induction fs with
+  | nil => intro ps _ w; rfl
+  | cons f fs ih =>
+    intro ps h w
+    simp only [ctorMatch, ctorInner_congr_true tg tg' f ps h]
+    apply ih
+    intro p hp
+    have hm : paramField p ∈ (ctorInner tg' true f ps w).1.map paramField := List.mem_map_of_mem hp
+    rw [ctorInner_fields] at hm
+    obtain ⟨q, hq, hqp⟩ := List.mem_map.mp hm
+    rw [← hqp]
+    exact h q hq
+
+theorem foldl_congr_mem {α β : Type} (g g' : β → α → β) :
+    ∀ (l : List α) (s : β), (∀ s x, x ∈ l → g s x = g' s x) → l.foldl g s = l.foldl g' s := by
+  intro l
+  induction l with
+  | nil => intro s _; rfl
+  | cons x l ih =>
+    intro s h
+    simp only [List.foldl_cons, h s x (List.mem_cons_self ..)]
+    exact ih _ (fun s y hy => h s y (List.mem_cons_of_mem _ hy))
+
+theorem typeMatch_congr (tg tg' : List (String × String)) (srcL destL : List MField) (s : TM)
+    (h : ∀ f ∈ srcL, tg.lookup (tagKey f) = tg'.lookup (tagKey f)) :
+    typeMatch tg srcL destL s = typeMatch tg' srcL destL s := by
+  simp only [typeMatch]
+  apply foldl_congr_mem
+  intro s f1 hf1
+  apply foldl_congr_mem
+  intro s f2 _
+  have hm : f1.1 ∈ srcL := List.fst_mem_of_mem_zipIdx (x := f1) hf1
+  simp only [tmPair, canNameMatch_congr tg tg' f1.1 f2.1 (h f1.1 hm)]
+
+
+/-- the source members as `makeCompatible` lists them: exported fields, then accessor pseudo-fields -/
+def srcList (t : MType) (srcAcc : List Acc) : List MField :=
+  t.src.fields.map (fun n => ({ name := n } : MField)) ++ srcAcc.map pseudo
+
+theorem mapCore_tags_congr (t : MType) (dest : MSide) (tg tg' : List (String × String)) (srcCtor destCtor : List CParam)
+    (srcAcc destAcc : List Acc)
+    (h1 : ∀ f ∈ srcList t srcAcc, tg.lookup (tagKey f) = tg'.lookup (tagKey f))
+    (h2 : ∀ p ∈ srcCtor, tg.lookup (tagKey (paramField p)) = tg'.lookup (tagKey (paramField p))) :
+    (mapCore t dest tg srcCtor destCtor srcAcc destAcc).2 = (mapCore t dest tg' srcCtor destCtor srcAcc destAcc).2 := by
+  simp only [srcList] at h1
+  simp only [mapCore]
+  rw [ctorMatch_congr_false tg tg' _ h1, ctorMatch_congr_true tg tg' _ _ h2, typeMatch_congr tg tg' _ _ _ h1]
+
+theorem lookup_append_or {β : Type} (l₁ l₂ : List (String × β)) (k : String) :
+    (l₁ ++ l₂).lookup k = (l₁.lookup k).orElse (fun _ => l₂.lookup k) := by
+  induction l₁ with
+  | nil => rfl
+  | cons p l ih =>
+    obtain ⟨a, b⟩ := p
+    simp only [List.cons_append, List.lookup_cons]
+    cases k == a <;> simp [ih]
+
+/-- the keys under which the source members of a type (fields, accessor pseudo-fields, constructor parameters) are looked up -/
+def srcTagKeys (t : MType) : List String :=
+  (srcList t (pick t.src.shootNew (mkAccs t.src) false [])).map tagKey
+    ++ (pick t.src.shootNew (mkParams t.src) false []).map (fun p => tagKey (paramField p))
+
+/-- a tag map that were kept from type to type (`mapTag`) shows in the output of a type ONLY through a key that one of the type's
+    own source members is looked up under and that the type does not tag itself -/
+theorem mapStep_tag_irrelevant (lk : Leaks) (hc : lk.mapCtor = false) (ha : lk.mapAcc = false) (files : Disk) (st : MSt) (t : MType)
+    (h : ∀ k ∈ srcTagKeys t, (tagTable t.tags).lookup k = none → st.tagMap.lookup k = none) :
+    (mapStep lk files st t).2 = (mapStep lk files {} t).2 := by
+  simp only [mapStep]
+  cases hd : t.dest with
+  | none => rfl
+  | some d =>
+    simp only [hc, ha]
+    have hpick : ∀ {α : Type} (own : Bool) (fresh carried : List α), pick own fresh false carried = pick own fresh false [] := by
+      intro α own fresh carried; cases own <;> simp [pick]
+    rw [hpick _ _ st.srcCtor, hpick _ _ st.destCtor, hpick _ _ st.srcAcc, hpick _ _ st.destAcc]
+    have hl : ∀ k ∈ srcTagKeys t, (tagsIn lk st t).lookup k = (tagsIn lk {} t).lookup k := by
+      intro k hk
+      simp only [tagsIn]
+      cases lk.mapTag with
+      | false => rfl
+      | true =>
+        simp only [↓reduceIte, lookup_append_or]
+        cases hk' : (tagTable t.tags).lookup k with
+        | some v => rfl
+        | none => simp [h k hk hk']
+    apply mapCore_tags_congr
+    · intro f hf
+      exact hl _ (List.mem_append_left _ (List.mem_map_of_mem hf))
+    · intro p hp
+      exact hl _ (List.mem_append_right _ (List.mem_map_of_mem (f := fun p => tagKey (paramField p)) hp))
+
 end ShootVerif.GenState
